@@ -11,6 +11,97 @@ REPO = os.environ.get("REPID_REPO", "/repo")
 PKG = "repid"
 
 
+def unroll_literal_tables(tree: ast.AST, max_rows: int = 8) -> list[int]:
+    """Normalisation: a `for` over a literal table (tuple/list of rows written in the function, possibly through one local) whose body neither
+    breaks nor continues is replaced by one copy of the body per row with the loop variables substituted - so a table-driven dispatch
+    (`for category, getter in ((NORMAL, self.a), (DELAYED, self.b)): if self.category == category: return await getter(p)`) reads like the
+    if-ladder it stands for. Returns the line numbers of the loops that were unrolled."""
+    import copy
+
+    done: list[int] = []
+
+    def literal_rows(fn: ast.AST, it: ast.expr):
+        if isinstance(it, ast.Name):
+            defs = [a for a in ast.walk(fn) if (isinstance(a, ast.Assign) and any(isinstance(t, ast.Name) and t.id == it.id for t in a.targets))
+                    or (isinstance(a, ast.AnnAssign) and isinstance(a.target, ast.Name) and a.target.id == it.id and a.value is not None)]
+            other = [a for a in ast.walk(fn) if isinstance(a, (ast.AugAssign, ast.NamedExpr)) and isinstance(a.target, ast.Name) and a.target.id == it.id]
+            if len(defs) != 1 or other or it.id in [p.arg for p in getattr(fn, "args", ast.arguments(posonlyargs=[], args=[], kwonlyargs=[], kw_defaults=[], defaults=[])).args]:
+                return None
+            it = defs[0].value
+        if isinstance(it, (ast.Tuple, ast.List)) and 1 <= len(it.elts) <= max_rows and not any(isinstance(e, ast.Starred) for e in it.elts):
+            return list(it.elts)
+        return None
+
+    def loop_jumps(body) -> bool:
+        todo = list(body)
+        while todo:
+            st = todo.pop()
+            if isinstance(st, (ast.Break, ast.Continue)):
+                return True
+            if isinstance(st, (ast.For, ast.AsyncFor, ast.While, ast.FunctionDef, ast.AsyncFunctionDef, ast.ClassDef)):
+                if isinstance(st, (ast.FunctionDef, ast.AsyncFunctionDef, ast.ClassDef)):
+                    return True  # nested definitions are not duplicated
+                todo.extend(st.orelse)
+                continue
+            for fld in ("body", "orelse", "finalbody"):
+                todo.extend(x for x in getattr(st, fld, []) or [] if isinstance(x, ast.stmt))
+            for h in getattr(st, "handlers", []) or []:
+                todo.extend(h.body)
+        return False
+
+    class Subst(ast.NodeTransformer):
+        def __init__(self, binding):
+            self.b = binding
+
+        def visit_Name(self, node):
+            if isinstance(node.ctx, ast.Load) and node.id in self.b:
+                return copy.deepcopy(self.b[node.id])
+            return node
+
+    def unroll_in(fn: ast.AST) -> None:
+        class T(ast.NodeTransformer):
+            def visit_FunctionDef(self, node):
+                return node  # nested functions are handled on their own
+
+            visit_AsyncFunctionDef = visit_FunctionDef
+            visit_Lambda = visit_FunctionDef
+
+            def visit_For(self, node):
+                self.generic_visit(node)
+                rows = literal_rows(fn, node.iter)
+                if rows is None or node.orelse or loop_jumps(node.body):
+                    return node
+                tgt = node.target
+                names = [tgt.id] if isinstance(tgt, ast.Name) else ([e.id for e in tgt.elts] if isinstance(tgt, (ast.Tuple, ast.List)) and all(isinstance(e, ast.Name) for e in tgt.elts) else None)
+                if names is None:
+                    return node
+                stored = {x.id for st in node.body for x in ast.walk(st) if isinstance(x, ast.Name) and isinstance(x.ctx, (ast.Store, ast.Del))}
+                if stored & set(names):
+                    return node
+                out = []
+                for row in rows:
+                    if isinstance(tgt, ast.Name):
+                        binding = {tgt.id: row}
+                    else:
+                        if not isinstance(row, (ast.Tuple, ast.List)) or len(row.elts) != len(names):
+                            return node
+                        binding = dict(zip(names, row.elts))
+                    if not all(isinstance(v, (ast.Name, ast.Attribute, ast.Constant)) for v in binding.values()):
+                        return node  # only side-effect free cells are copied into the body
+                    for st in node.body:
+                        out.append(Subst(binding).visit(copy.deepcopy(st)))
+                done.append(node.lineno)
+                return out
+
+        fn.body = [x for st in fn.body for x in (lambda r: r if isinstance(r, list) else [r])(T().visit(st))]
+
+    for fn in [n for n in ast.walk(tree) if isinstance(n, (ast.FunctionDef, ast.AsyncFunctionDef))]:
+        unroll_in(fn)
+    if done:
+        ast.fix_missing_locations(tree)
+    return done
+
+
 class AnalysisError(Exception):
     """The analysis itself cannot proceed (vanished anchor, unsupported syntax, ...). Exit code 2."""
 
@@ -119,6 +210,7 @@ class Program:
     def __init__(self, repo: str = REPO) -> None:
         self.repo = repo
         self.modules: dict[str, ModuleInfo] = {}
+        self.unrolled: list[str] = []
         self.classes: dict[str, ClassInfo] = {}
         self.functions: dict[str, FuncInfo] = {}
         self._subclasses: dict[str, list[str]] = {}
@@ -148,7 +240,10 @@ class Program:
                     compile(src, path, "exec", dont_inherit=True)
                 except SyntaxError as exc:
                     raise AnalysisError(f"{rel}: does not compile: {exc}") from exc
+                unrolled = unroll_literal_tables(tree)
                 self.modules[modname] = ModuleInfo(modname, path, rel, src, tree, is_package=is_pkg)
+                if unrolled:
+                    self.unrolled.extend(f"{rel}:{ln}" for ln in unrolled)
         for m in self.modules.values():
             self._index_module(m)
         for c in self.classes.values():
